@@ -5,6 +5,12 @@ import json, subprocess, os
 V = os.path.dirname(os.path.dirname(os.path.abspath(__file__)))
 
 claimed = {
+ "C19": dict(tech="constant propagation through the reference/identity formatters and parsers (regexp, strings, fmt, net/url folded on constants; heap snapshots of returned allocations), finite-language extraction from the REST regexp, SCCP with the oneof field name pinned",
+    text="The REST URL regexp names exactly the R4 resource types; every strong Reference member's field name is turned into its resource type in identityOfStrong and in FHIRPath's reference synthesis; URIString∘LiteralInfoFromURI, Identity renderings∘NewIdentityFromURL/HistoryURL and CanonicalIdentity.String∘canonical regexp are evaluated on pools covering all 146 resource types x id/version/base forms and return the same components; a pool of ill-formed references is rejected with an error on every path; no index in these parsers can go out of range.",
+    note="Not decided: weak→strong normalisation (jsonformat, third-party), comparison laws on run-time values, strings outside the pools (the parsers are loop-free compositions of library calls).", ref="§3-C19"),
+ "C20": dict(tech="schema-relative table checks (generated Go types vs registries), constant propagation through the snake-casing, loop-exit analysis, oneof-name typing, value provenance of the wrapped message",
+    text="Registries list exactly the 146 resource types and cover the 49 extension value types; the type-name → oneof-field conversion is evaluated for each of them and equals the generated field name; registry construction, path labelling, SetByURL, UnwrapMap and slices.Map examine every item; oneof names exist in their message types; Wrap/FromElement store the argument itself under its own type's descriptor and Unwrap reads the populated member.",
+    note="Not decided: identity of wrapped/unwrapped messages on values, exactly-once extraction (protorange, third-party), agreement of path labels with FHIRPath evaluation.", ref="§3-C20"),
  "C14": dict(tech="constant propagation through the string functions with pure library models (strings/utf8 folded on constants) compared with a rune-based reference model; byte-indexing inventory; bounds obligations",
     text="length, upper, lower, startsWith, endsWith, contains, indexOf, substring and replace are evaluated from source on a pool of 9 strings mixing 1- to 4-byte code points with all short patterns and boundary positions and compared with a character-based reference; no byte-indexed operation remains in the 13 string functions; out-of-range positions cannot crash.",
     note="Not decided: strings outside the pool (functions are loop-free compositions of library calls, trusted on other strings), toChars/matches/replaceMatches values.", ref="§3-C14"),
